@@ -33,15 +33,32 @@ func newModSet() *modSet {
 	return &modSet{vars: map[*types.Var]bool{}, heaps: map[string]Sort{}, calls: map[string]bool{}}
 }
 
-func (x *Exec) loopOrdinal(s ast.Stmt) int {
+// isForEachLit: a call x.ForEach(func(e T) error {...}) of an external iterator with a literal callback;
+// such a call is cut like a loop (its ordinal counts with the syntactic loops, in source order).
+func isForEachLit(call *ast.CallExpr) *ast.FuncLit {
+	sel, ok := ast.Unparen(call.Fun).(*ast.SelectorExpr)
+	if !ok || sel.Sel.Name != "ForEach" || len(call.Args) != 1 {
+		return nil
+	}
+	lit, _ := ast.Unparen(call.Args[0]).(*ast.FuncLit)
+	return lit
+}
+
+func (x *Exec) loopOrdinal(s ast.Node) int {
 	fr := x.top()
 	if fr.loopOrds == nil {
-		fr.loopOrds = map[ast.Stmt]int{}
+		fr.loopOrds = map[ast.Node]int{}
 		n := 0
 		ast.Inspect(fr.fi.Body(), func(nd ast.Node) bool {
 			switch l := nd.(type) {
 			case *ast.FuncLit:
 				return false
+			case *ast.CallExpr:
+				if isForEachLit(l) != nil {
+					fr.loopOrds[l] = n
+					n++
+					return false
+				}
 			case *ast.ForStmt:
 				fr.loopOrds[l] = n
 				n++
@@ -55,7 +72,7 @@ func (x *Exec) loopOrdinal(s ast.Stmt) int {
 	return fr.loopOrds[s]
 }
 
-func (x *Exec) loopInvs(s ast.Stmt) ([]*Clause, *Clause) {
+func (x *Exec) loopInvs(s ast.Node) ([]*Clause, *Clause) {
 	fr := x.top()
 	if !fr.top || x.contract == nil {
 		return nil, nil
@@ -128,6 +145,10 @@ type rangeSpec struct {
 	typ    types.Type
 	keyVar *types.Var
 	valVar *types.Var
+	// kind "foreach": the callback literal, the element type and the synthetic result variable
+	lit    *FuncInfo
+	elemT  types.Type
+	resVar *types.Var
 }
 
 func (x *Exec) execRange(s *ast.RangeStmt, st *State) flow {
@@ -238,7 +259,7 @@ func (x *Exec) unrollIntRange(s *ast.RangeStmt, rs *rangeSpec, n int, st *State)
 func (x *Exec) joinLoose(base *State, ss []*State) *State { return x.join(base, ss) }
 
 // cutLoop cuts a loop at its head (DESIGN.md 3.7 "Loops").
-func (x *Exec) cutLoop(node ast.Stmt, st *State, cond ast.Expr, post ast.Stmt, body *ast.BlockStmt, rs *rangeSpec, _ *struct{}) flow {
+func (x *Exec) cutLoop(node ast.Node, st *State, cond ast.Expr, post ast.Stmt, body *ast.BlockStmt, rs *rangeSpec, _ *struct{}) flow {
 	invs, dec := x.loopInvs(node)
 	ord := x.loopOrdinal(node)
 	lc := &loopCtx{outer: x.curLoop}
@@ -249,7 +270,7 @@ func (x *Exec) cutLoop(node ast.Stmt, st *State, cond ast.Expr, post ast.Stmt, b
 		lc.rangeV = &rv
 		lc.rangeT = rs.typ
 		switch rs.kind {
-		case "slice", "int":
+		case "slice", "int", "foreach":
 			idxVar = intLit(0)
 			lc.idx = &idxVar
 		case "map":
@@ -268,7 +289,11 @@ func (x *Exec) cutLoop(node ast.Stmt, st *State, cond ast.Expr, post ast.Stmt, b
 	}
 	// 2. havoc what the body may modify before reaching the back edge
 	mods := newModSet()
-	x.collectMods(body.List, true, mods)
+	if rs != nil && rs.kind == "foreach" {
+		x.collectAll(body.List, mods)
+	} else {
+		x.collectMods(body.List, true, mods)
+	}
 	if post != nil {
 		x.collectMods([]ast.Stmt{post}, true, mods)
 	}
@@ -355,6 +380,10 @@ func (x *Exec) cutLoop(node ast.Stmt, st *State, cond ast.Expr, post ast.Stmt, b
 			i := x.ctx.Fresh("ri", SInt)
 			idxVar = i
 			head.assume(and(mk(SBool, "<=", intLit(0), i), mk(SBool, "<=", i, ite(mk(SBool, ">=", rs.val, intLit(0)), rs.val, intLit(0)))))
+		case "foreach":
+			i := x.ctx.Fresh("ri", SInt)
+			idxVar = i
+			head.assume(and(mk(SBool, "<=", intLit(0), i), mk(SBool, "<=", i, x.seqLen(rs.val))))
 		case "map":
 			visVar = x.ctx.Fresh("visited", visVar.Sort)
 		}
@@ -402,6 +431,8 @@ func (x *Exec) cutLoop(node ast.Stmt, st *State, cond ast.Expr, post ast.Stmt, b
 		c = mk(SBool, "<", idxVar, x.sliceLen(rs.val))
 	case rs.kind == "int":
 		c = mk(SBool, "<", idxVar, rs.val)
+	case rs.kind == "foreach":
+		c = mk(SBool, "<", idxVar, x.seqLen(rs.val))
 	case rs.kind == "map":
 		mt := rs.typ.Underlying().(*types.Map)
 		mh := x.mapHeap(mt)
@@ -425,6 +456,9 @@ func (x *Exec) cutLoop(node ast.Stmt, st *State, cond ast.Expr, post ast.Stmt, b
 	}
 	base := bodySt.clone() // common prefix of exit and break states
 	exits := []*State{}
+	if rs != nil && rs.kind == "foreach" {
+		x.declVar(exitSt, rs.resVar, intLit(0)) // the iteration ran to its end: ForEach returns nil
+	}
 	if c.S != "true" {
 		exits = append(exits, exitSt)
 	}
@@ -460,7 +494,27 @@ func (x *Exec) cutLoop(node ast.Stmt, st *State, cond ast.Expr, post ast.Stmt, b
 		x.loopStack = append(x.loopStack, lc)
 		saveLoop := x.curLoop
 		x.curLoop = lc
-		f := x.execBlock(body.List, bodySt)
+		var f flow
+		if rs != nil && rs.kind == "foreach" {
+			// one invocation of the callback on the next element; a non-nil result ends the iteration
+			// and is what ForEach returns
+			el := x.seqAt(rs.val, idxVar, rs.elemT)
+			for _, fact := range x.typeFacts(el, rs.elemT) {
+				bodySt.assume(fact)
+			}
+			if _, isPtr := rs.elemT.Underlying().(*types.Pointer); isPtr {
+				bodySt.assume(and(mk(SBool, ">", el, intLit(0)), mk(SBool, "<", el, bodySt.alloc)))
+			}
+			x.addReadFacts(bodySt, el, rs.elemT)
+			res := x.inline(nil, rs.lit, nil, nil, []Term{el}, bodySt)
+			stop := bodySt.clone()
+			stop.assume(not(eq(res[0], intLit(0))))
+			x.declVar(stop, rs.resVar, res[0])
+			bodySt.assume(eq(res[0], intLit(0)))
+			f = flow{normal: bodySt, brk: []*State{stop}}
+		} else {
+			f = x.execBlock(body.List, bodySt)
+		}
 		x.curLoop = saveLoop
 		x.loopStack = x.loopStack[:len(x.loopStack)-1]
 		exits = append(exits, f.brk...)
@@ -480,7 +534,7 @@ func (x *Exec) cutLoop(node ast.Stmt, st *State, cond ast.Expr, post ast.Stmt, b
 				lc2 := *lc
 				if rs != nil {
 					switch rs.kind {
-					case "slice", "int":
+					case "slice", "int", "foreach":
 						ni := mk(SInt, "+", idxVar, intLit(1))
 						lc2.idx = &ni
 					case "map":
@@ -973,4 +1027,39 @@ func (x *Exec) modsOfContract(c *Contract, call *ast.CallExpr, ms *modSet) {
 			ms.heaps[n] = s
 		}
 	}
+}
+
+// ---- ForEach(callback literal) of an external iterator, cut like a range loop ----
+// The iterator is an abstract finite sequence seq_at(it, 0..seq_len(it)-1) (assumption: ForEach calls the
+// callback once per element, in order, stops at the first non-nil result and returns it, nil otherwise).
+
+func (x *Exec) seqLen(it Term) Term {
+	return x.ctx.App("seq_len", SInt, it)
+}
+
+func (x *Exec) seqAt(it, i Term, elemT types.Type) Term {
+	srt := x.sortOf(elemT)
+	return x.ctx.App("seq_at_"+mangle(string(srt)), srt, it, i)
+}
+
+func (x *Exec) execForEach(call *ast.CallExpr, lit *ast.FuncLit, recv Term, st *State) []Term {
+	sig := x.typeOf(lit).Underlying().(*types.Signature)
+	if sig.Params().Len() != 1 || sig.Results().Len() != 1 {
+		panic(unsupported("ForEach callback shape"))
+	}
+	fi := x.w.LitInfo[lit]
+	if fi == nil {
+		fi = &FuncInfo{Lit: lit, Pkg: x.top().pkg, Name: x.top().fi.Name + "$lit", Sig: sig, Encl: x.top().fi}
+	}
+	rs := &rangeSpec{kind: "foreach", val: recv, typ: x.typeOf(ast.Unparen(call.Fun).(*ast.SelectorExpr).X), lit: fi, elemT: sig.Params().At(0).Type()}
+	rs.resVar = types.NewVar(call.Pos(), x.top().pkg.Types, "$foreach", sig.Results().At(0).Type())
+	st.assume(mk(SBool, ">=", x.seqLen(recv), intLit(0)))
+	fl := x.cutLoop(call, st, nil, nil, lit.Body, rs, nil)
+	if fl.normal == nil {
+		panic(pathEnd{})
+	}
+	*st = *fl.normal
+	r := st.vars[rs.resVar]
+	delete(st.vars, rs.resVar)
+	return []Term{r}
 }
